@@ -1,0 +1,7 @@
+//go:build !verif
+
+package kvql
+
+// simYield is a hook for deterministic-simulation builds (tag "verif"); in
+// normal builds it does nothing and is inlined away.
+func simYield(site string) {}
